@@ -15,8 +15,28 @@ def gen_consts(v):
              ('LE_PROBE', 'le_probe()')]
     prelude = ('#include <string.h>\nstatic unsigned le_probe() { unsigned char b[4] = {1, 2, 3, 4}; '
                'uint32_t h; memcpy(&h, b, 4); return h; }')
-    return v.gen_consts_cpp(ID, ['common/rpc/RpcChannel.h', 'common/rpc/RpcHeader.h', 'common/rpc/Rpc.pb.h'],
-                            ents, os.path.join(v.VERIF, 'props', ID, 'coq', 'Gen.v'), prelude=prelude)
+    err = v.gen_consts_cpp(ID, ['common/rpc/RpcChannel.h', 'common/rpc/RpcHeader.h', 'common/rpc/Rpc.pb.h'],
+                           ents, os.path.join(v.VERIF, 'props', ID, 'coq', 'Gen.v'), prelude=prelude)
+    if err:
+        return err
+    # the failure texts: string literals of RpcChannel.cpp, located by the code around them
+    import re
+    src = open(v.repo_path('common/rpc/RpcChannel.cpp')).read()
+    pats = [('SRC_SEND_FAILED', r'Send failed, call the handler now\.\s*controller->SetFailed\("([^"]*)"\)'),
+            ('SRC_DUPLICATE', r'old_response->controller->SetFailed\("([^"]*)"\)'),
+            ('SRC_NOT_IMPLEMENTED', r'HandleNotImplemented\(RpcMessage \*msg\) \{.*?SetFailed\("([^"]*)"\)')]
+    out = ['(* REGENERATED from common/rpc/RpcChannel.cpp on every run. Do not edit. *)',
+           'From Coq Require Import NArith List.', 'Import ListNotations.', 'Local Open Scope N_scope.']
+    for name, pat in pats:
+        m = re.search(pat, src, re.S)
+        if not m:
+            return 'failure text %s not found in RpcChannel.cpp' % name
+        out.append('Definition %s : list N := [%s].' % (name, '; '.join(str(b) for b in m.group(1).encode())))
+    new = '\n'.join(out) + '\n'
+    path = os.path.join(v.VERIF, 'props', ID, 'coq', 'GenTxt.v')
+    if not os.path.exists(path) or open(path).read() != new:
+        open(path, 'w').write(new)
+    return None
 
 RULE = ('one-channel scripts of chunks/calls/completions: byte streams built from real RpcMessage encodings (requests for '
         'known/unknown/streaming methods, all response kinds for outstanding/unknown/duplicate ids, ignored types), '
@@ -228,6 +248,7 @@ MODES = ['whole', 'bytes', 'random', 'hdr']
 def gen_script(rng, kind):
     s = Script(rng, kind)
     if kind == 'valid':
+        if rng.random() < 0.15: s.flags.append('N')     # the channel has no service: requests are dropped
         for _ in range(rng.choice([1, 2, 3, 6])):
             r = rng.random()
             if r < 0.5: s.request()
@@ -508,8 +529,10 @@ LEVEL_TEXT = ('Coq theorems, for all byte streams, all segmentations into reads 
               'calls draw ids like any other and are never registered) completes at most once, exactly once when answered or '
               'when the send failed, only through a message carrying its own id, also across sequence-number wrap and id '
               'reuse; the serving side only writes replies carrying the id of a request it received, also with duplicate '
-              'request ids and asynchronous out-of-order completion.  realloc failure is not modelled; the lifetime of '
-              'server-side request objects is checked by ASan in the correspondence, not by a theorem.')
+              'request ids and asynchronous out-of-order completion; every server-side request object is outstanding, superseded '
+              'or deleted exactly once (only inside its own completion); reads of the buffer and writes of the header array '
+              'are in bounds.  realloc failure is not modelled; calls outstanding when the channel closes are never completed '
+              'by the code (outside the property: healthy connections).')
 LEVEL_NOTE = ('Trusted: Coq kernel, extraction (ExtrOcamlBasic), OCaml/C++ glue, generator coverage; model = code is validated '
               'by differential testing (real RpcChannel on a socketpair under ASan/UBSan, raw bytes in generated chunkings, '
               'level-triggered DescriptorReady, state compared after every operation; two real channels back to back), not '
